@@ -57,6 +57,10 @@ func buildSweeps(thorough bool) []sweep {
 	bindAlpha := append([]uint8{opHasBody, opRead1, opClose, opReadAll}, binders...)
 	terms3 := []error{io.EOF, errInjected, io.ErrUnexpectedEOF}
 	libModes := []string{modeJSONRequest, modeAbsent0, modeAbsentMinus, modeZero, modePositive}
+	// edge values (round 12): declared lengths at and around the bit-size boundaries, far larger than what the stream
+	// delivers (the answer for a positive declared length does not depend on reading); shapes of declared / not declared
+	hugeDecl := []int64{1, 1<<31 - 1, 1 << 31, 1 << 32, 1<<53 + 1, 1<<63 - 1}
+	edgeFirst := []int{'\t', 0x7f, 0xEF, '%', '{'}
 	if thorough {
 		return []sweep{
 			{name: "small-bodies/undeclared/every-chunking", bodies: small, modes: undeclared, maxLen: 5, bound: -1, zeroBudget: 2},
@@ -64,6 +68,11 @@ func buildSweeps(thorough bool) []sweep {
 			{name: "buffer-sized-bodies/undeclared/first-byte", bodies: big, modes: undeclared, maxLen: 4, bound: 1, zeroBudget: 1, firsts: firstOthers},
 			{name: "consumers/undeclared", bodies: []int{-1, 0, 1, 2, 3, 4097}, modes: undeclared, terms: terms3, alphabet: consumeAlpha, need: consumers, minLen: 1, maxLen: 3, bound: 2, zeroBudget: 1},
 			{name: "consumers/undeclared/len4", bodies: []int{0, 1, 3}, modes: undeclared[1:], terms: terms3, alphabet: consumeAlpha, need: consumers, minLen: 4, maxLen: 4, bound: 1, zeroBudget: 1},
+			{name: "edge-values/declared-length", bodies: []int{-1, 0, 1, 3, 4097}, modes: []string{modePositive, modePositiveNH, modePositiveLZ}, terms: terms3, decls: hugeDecl, maxLen: 4, bound: 1, zeroBudget: 1},
+			{name: "edge-values/declared-length/net-http", bodies: []int{0, 1, 3, 4097}, modes: []string{modeWireCLHuge}, terms: terms3[2:], decls: []int64{1 << 31, 1<<53 + 1, 1<<63 - 1}, maxLen: 4, bound: 1, zeroBudget: 1},
+			{name: "edge-values/declared-shapes", bodies: []int{-1, 0, 1, 3}, modes: []string{modeAbsentEmptyHdr, modeAbsentNilHdr, modeZero00, modePositiveLZ}, maxLen: 4, bound: 1, zeroBudget: 1},
+			{name: "edge-values/body-bytes", bodies: []int{1, 3, 4097, 65537}, modes: undeclared[1:], maxLen: 3, bound: 1, zeroBudget: 1, firsts: edgeFirst},
+			{name: "edge-values/library-callers", bodies: []int{1, 4097}, modes: []string{modePositive}, terms: terms3[2:], decls: hugeDecl[2:], alphabet: bindAlpha, need: binders, minLen: 1, maxLen: 2, bound: 1, zeroBudget: 1},
 			{name: "library-callers", bodies: []int{-1, 0, 1, 3, 4097, 8193}, modes: libModes, terms: terms3, alphabet: bindAlpha, need: binders, minLen: 1, maxLen: 4, bound: 1, zeroBudget: 1},
 			{name: "cancellation/blocking-first-read", bodies: []int{0, 1, 3, 4097}, modes: undeclared[1:], maxLen: 2, bound: 1, zeroBudget: 0, ctxs: ctxBlock, blocking: true, waitMs: 200},
 			{name: "cancellation/non-blocking", bodies: []int{-1, 0, 1, 3, 4097}, modes: undeclared, maxLen: 4, bound: 1, zeroBudget: 1, ctxs: ctxPlain},
@@ -82,6 +91,11 @@ func buildSweeps(thorough bool) []sweep {
 		{name: "small-bodies/undeclared", bodies: small, modes: undeclared, maxLen: 5, bound: 2, zeroBudget: 1},
 		{name: "small-bodies/undeclared/first-byte", bodies: []int{1, 2, 3}, modes: undeclared, maxLen: 4, bound: 1, zeroBudget: 1, firsts: firstOthers},
 		{name: "consumers/undeclared", bodies: []int{-1, 0, 1, 2, 3, 4097}, modes: undeclared, terms: terms3, alphabet: consumeAlpha, need: consumers, minLen: 1, maxLen: 3, bound: 1, zeroBudget: 1},
+		{name: "edge-values/declared-length", bodies: []int{-1, 0, 3}, modes: []string{modePositive, modePositiveNH, modePositiveLZ}, decls: hugeDecl, maxLen: 3, bound: 1, zeroBudget: 1},
+		{name: "edge-values/declared-length/net-http", bodies: []int{0, 3}, modes: []string{modeWireCLHuge}, terms: terms3[2:], decls: []int64{1 << 31, 1<<63 - 1}, maxLen: 3, bound: 1, zeroBudget: 1},
+		{name: "edge-values/declared-shapes", bodies: []int{-1, 0, 1, 3}, modes: []string{modeAbsentEmptyHdr, modeAbsentNilHdr, modeZero00, modePositiveLZ}, maxLen: 3, bound: 1, zeroBudget: 1},
+		{name: "edge-values/body-bytes", bodies: []int{1, 3, 4097}, modes: undeclared[1:], maxLen: 2, bound: 1, zeroBudget: 1, firsts: edgeFirst},
+		{name: "edge-values/library-callers", bodies: []int{1, 4097}, modes: []string{modePositive}, terms: terms3[2:], decls: hugeDecl[2:4], alphabet: bindAlpha, need: binders, minLen: 1, maxLen: 2, bound: 1, zeroBudget: 1},
 		{name: "library-callers", bodies: []int{-1, 0, 1, 3, 4097, 8193}, modes: libModes, terms: []error{io.EOF, io.ErrUnexpectedEOF}, alphabet: bindAlpha, need: binders, minLen: 1, maxLen: 3, bound: 1, zeroBudget: 1},
 		{name: "cancellation/blocking-first-read", bodies: []int{0, 3, 4097}, modes: undeclared[1:], maxLen: 1, bound: 0, zeroBudget: 0, ctxs: ctxBlock, blocking: true, waitMs: 100},
 		{name: "cancellation/non-blocking", bodies: []int{-1, 0, 1, 3}, modes: undeclared[1:], maxLen: 3, bound: 1, zeroBudget: 1, ctxs: ctxPlain},
@@ -145,12 +159,21 @@ func buildPlans(thorough bool) []*plan {
 						if len(ctxs) == 0 {
 							ctxs = []string{""}
 						}
+						decls := []int64{0}
+						if len(sw.decls) > 0 && (md == modePositive || md == modePositiveNH || md == modePositiveLZ || md == modeWireCLHuge) {
+							decls = sw.decls
+						}
 						for _, fb := range firsts {
 							for _, cx := range ctxs {
-								cfgID++
-								c := newConfigFirst(cfgID, bl, t, md, 0, fb)
-								c.ctx, c.block, c.waitMs = cx, sw.blocking && cx != "", sw.waitMs
-								p.cfgs = append(p.cfgs, []*config{c})
+								for _, dn := range decls {
+									cfgID++
+									c := newConfigFirst(cfgID, bl, t, md, 0, fb)
+									c.ctx, c.block, c.waitMs = cx, sw.blocking && cx != "", sw.waitMs
+									if dn != 0 || md == modeWireCLHuge {
+										c.setDeclared(dn)
+									}
+									p.cfgs = append(p.cfgs, []*config{c})
+								}
 							}
 						}
 					}
@@ -670,6 +693,9 @@ func main() {
 			}
 			info["modes"] = sw.modes
 			info["extended_alphabet"] = sw.extended
+			if len(sw.decls) > 0 {
+				info["declared_lengths(positive modes)"] = sw.decls
+			}
 			if len(sw.ctxs) > 0 {
 				info["request_context"] = sw.ctxs
 				info["first_read_of_first_probe_blocks"] = sw.blocking
@@ -709,6 +735,7 @@ func main() {
 		"IsSafe, AllowsBody, CanHaveBody": "operation MethodPredicates of 'consumers/*': they must neither replace nor read the body",
 		"not covered":                     "APIHandler / Serve end to end (C06, C01 drive them; they reach the probe only through BindAndValidate), multipart and form binding (they parse the body through net/http, no probe), concurrent use of one request",
 	})
+	r.Set("edge_values", "sweeps 'edge-values/*': declared lengths {1, 2^31-1, 2^31, 2^32, 2^53+1, MaxInt64} as ContentLength with the header, without it and with leading zeros, and as Content-Length on the wire parsed by net/http (fewer bytes follow, the body ends with io.ErrUnexpectedEOF); 'nothing declared' as empty header value and as nil Header map; zero declared as \"00\"; body bytes TAB, DEL, 0xEF (first byte of a BOM), '%', '{' in front, bodies up to 65537 bytes")
 	r.Set("operations", opNames[:])
 	r.Set("epilogue", "after every history, for every request in turn: Read(4096) until the terminal condition, Read(1), Close, Read(1), Close, Read(4096) - all judged by the same oracle")
 	r.Set("stream_choice_point", "every Read the underlying stream receives before it has delivered its terminal: full | 1 byte | all but one | all + terminal together | (0,nil); every Close it receives: nil | error (the stream counts as closed either way)")
